@@ -145,7 +145,9 @@ def gen_valid_history(rng, cfg, nops, slot=0, ratio_changes="any", chunk_changes
     sg = sig or rand_sig(rng)
     feats = set()
     # FFT slots: the model's data plane (naive-DFT unit) is compared by tolerance, which needs the values
-    d = " dump" if (dump or cfg.kind in FFT) else ""
+    # ... and so do the sinc resamplers with a real table (libm): without the values nothing of their data plane is compared
+    realsinc = cfg.kind in ("sincin", "sincout") and cfg.line.split()[-1] in ("auto", "scalar", "avx", "sse")
+    d = " dump" if (dump or cfg.kind in FFT or realsinc) else ""
     for _ in range(nops):
         c = rng.random()
         if masks == "vary" and rng.random() < 0.2:
